@@ -176,10 +176,12 @@ def run(pid, tier, seed):
             i, (k, o, fm, a, b, tz) = ij
             d, plain, truth = prepared[k]
             argv = ["--tz-offset=" + tz, "--color", "never", "--journal-output", o]
+            # the same instants with different numeric offsets written on the values
+            off = (0, 60, -480, 330, 825)[i % 5]
             if a is not None:
-                argv += ["-a", cli_us(a) + "+00:00"]
+                argv += ["-a", gen.fmt_ts(a // 10**6, (a % 10**6) * 1000, off, 6)]
             if b is not None:
-                argv += ["-b", cli_us(b) + "+00:00"]
+                argv += ["-b", gen.fmt_ts(b // 10**6, (b % 10**6) * 1000, off, 6)]
             tmp = os.path.join(sc, "tmp%d" % i)
             os.makedirs(tmp)
             rr = common.run_s4(argv + [k + ".journal" + fm], cwd=d, trace=True, tmpdir=tmp, timeout=300, tz_args=False)
@@ -247,6 +249,28 @@ def run(pid, tier, seed):
                 samples.append({"journal": k, "output": o, "form": fm or "plain", "after_us": a, "before_us": b, "selected": len(want)})
         if predicted and "before-bound-exclusive" not in reproduced and "before-bound-exclusive" not in rep.known_hits:
             rep.note_drift("Ordered.tla with measured JBEFORE=%s violates %s, not reproduced" % (jbefore, predicted))
+        # two journals as members of one tar, member paths suffix-related, both orders: every entry of each, once
+        import tarfile
+        bd = os.path.join(sc, "bundle")
+        os.makedirs(bd)
+        ka, kb = keys[0], keys[1]
+        for k in (ka, kb):
+            shutil.copyfile(prepared[k][1], os.path.join(bd, k + ".journal"))
+        for bi, members in enumerate([[("archive/system.journal", kb), ("system.journal", ka)],
+                                      [("system.journal", ka), ("archive/system.journal", kb)]]):
+            tname = "b%d.tar" % bi
+            with open(os.path.join(bd, tname), "wb") as f:
+                f.write(gen.tar_bytes([(mn, open(os.path.join(bd, k + ".journal"), "rb").read()) for mn, k in members], fmt=tarfile.GNU_FORMAT))
+            tmpb = os.path.join(bd, "tmp")
+            os.makedirs(tmpb, exist_ok=True)
+            ra = common.run_s4(["--color", "never", "--journal-output", "export"] + [k + ".journal" for _, k in members], cwd=bd, timeout=300)
+            rb = common.run_s4(["--color", "never", "--journal-output", "export", tname], cwd=bd, tmpdir=tmpb, timeout=300)
+            na, nb = ra.out.count(b"__CURSOR="), rb.out.count(b"__CURSOR=")
+            want_n = len(prepared[ka][2]) + len(prepared[kb][2])
+            if rb.crashed or ra.out != rb.out or nb != want_n:
+                rep.violation("tar-bundle", "tar of %s: %d entries printed (plain files: %d, journalctl: %d)%s"
+                              % ([m[0] for m in members], nb, na, want_n, "" if ra.out != rb.out else " -- same bytes"),
+                              {"kind": "bundle", "members": members, "rc": rb.rc})
         rep.coverage = {"states": r.distinct, "transitions": r.generated, "traces_validated_against_impl": len(runs),
                         "evaluations": len(runs), "distinct_nontrivial": on_entry,
                         "rule": "one evaluation = one run on one journal (entries: %s) with one rendering, window, container and "
